@@ -22,6 +22,36 @@ CHECKS = {
          TB + "CPython list/dict/hasattr/pickle semantics are modelled, not verified.",
          "Rocq/Coq proof (invariant induction) + correspondence", "DESIGN.md §3 C16"),
 }
+
+PART = ("PARTIAL proof level: the theorems cover the atomic layer (emplace/extract of one value: every bit length > 0, bit position, both byte orders, "
+        "any previous message content, all signed encodings, unsigned, byte fields, latin-1 strings). The composite statement over whole parameter trees "
+        "(structures, fields, dynamic-length types, positions) is NOT a theorem: it is decided by the model/implementation correspondence on generated "
+        "ODX documents plus the property's direct oracle on the implementation. ")
+CODEC_NOTE = TB + ("Model scope: strict mode; int/bytefield/string base types (no floats), STANDARD/MIN-MAX/LEADING-LENGTH/PARAM-LENGTH types, IDENTICAL and integer "
+        "LINEAR compu, structures, 4 field kinds, 7 parameter kinds; multiplexer, tables, DTC, env-data not modelled. String codecs re-implemented in Gallina; "
+        "bitstruct modelled as shift/mask arithmetic. Own ODX emitter and generators are trusted for coverage. ")
+CHECKS.update({
+ "C01": (PART + "Oracle: decode(encode(v)) returns v plus defaults/constants and reads the whole PDU.", CODEC_NOTE,
+         "Rocq/Coq proof (bit-level masked-write lemma, Z.testbit) + correspondence + round-trip oracle", "DESIGN.md §2 C01"),
+ "C02": (PART + "Theorems C02_atomic_bits (each written bit is the specified one, every other bit untouched), C02_atomic_read, C02_overlap_flag (flag iff a used bit is claimed again), "
+         "C02_byte_order. Correspondence run on both bitstruct backends (second interpreter with the pure-python backend).", CODEC_NOTE,
+         "Rocq/Coq proof (bit-exact region lemma) + two-backend correspondence", "DESIGN.md §2 C02"),
+ "C03": (PART + "Theorems: canonical raw values re-encode to themselves (signed incl. the negative-zero refutation, unsigned, byte fields). Oracle: decode->encode reproduces own encodings.", CODEC_NOTE,
+         "Rocq/Coq proof (atomic decode/encode inverse) + correspondence + re-encode oracle", "DESIGN.md §2 C03"),
+ "C04": (PART + "Theorems: acceptance implies representability and exact read-back; rejections are always the library's error class. Streams valid/boundary/ill-typed; oracle: rejection or faithful PDU, never a foreign exception.", CODEC_NOTE,
+         "Rocq/Coq proof (acceptance => representability) + boundary-value correspondence", "DESIGN.md §2 C04"),
+ "C05": (PART + "Theorems: atomic extraction from any byte string is a value or DecodeError; truncated input is rejected. The model's decoders are total functions with explicit fuel. "
+         "Inputs: prefixes, single-byte mutations, random strings, all short strings on the shipped somersault database (layer-level decode).", CODEC_NOTE,
+         "Rocq/Coq proof (totality of extraction) + mutation/prefix enumeration against the implementation", "DESIGN.md §2 C05"),
+ "C08": (PART + "Theorem: a successful emplace advances the cursor by ceil((bitpos+bitlength)/8), the summand of the static length. Message level (static length, constant prefix, required/free) by correspondence + oracle. "
+         "Known finding: condensed bit masks.", CODEC_NOTE,
+         "Rocq/Coq proof (cursor advance) + correspondence of static descriptions", "DESIGN.md §2 C08"),
+ "C17": ("Coq theorems about the strict-mode discipline (any program of soft checks/hard raises: strict success => identical lenient result with empty log; strict errors are hard raises or logged downgrades; "
+         "the mode is read at each call) plus a finite obligation regenerated from the sources each run (odxraise raises iff the flag is set at call time; no module binds strict_mode at import). "
+         "Correspondence: every encode/decode case under strict, lenient and re-enabled strict mode.",
+         TB + "The lenient continuation after a downgraded error is declared undefined by the README and is not modelled.",
+         "Rocq/Coq proof (free-monad discipline) + translator obligation + mode-schedule correspondence", "DESIGN.md §2 C17"),
+})
 NA_REASON = "check not built yet in this round (work in progress; DESIGN.md §6 gives the order of work)"
 def main():
     checks = []
